@@ -955,7 +955,7 @@ def _analyze_zipfile_for_import(zipfile, project, schema):
 
         """
         # Must use forward slashes, not os.path.sep.
-        fn_statepoint = path + "/" + Job.FN_STATE_POINT
+        fn_statepoint = _tarfile_path_join(path, Job.FN_STATE_POINT)
         if fn_statepoint in names:
             return json.loads(zipfile.read(fn_statepoint).decode())
 
@@ -978,7 +978,7 @@ def _analyze_zipfile_for_import(zipfile, project, schema):
     for name in sorted(dirs):
         cont = False
         for skip in skip_subdirs:
-            if name == skip or name.startswith(skip + "/"):
+            if skip == "" or name == skip or name.startswith(skip + "/"):
                 cont = True
                 break
         if cont:
@@ -999,7 +999,7 @@ def _analyze_zipfile_for_import(zipfile, project, schema):
         )
 
     for src, job in mappings.items():
-        _names = [name for name in names if name.startswith(src + "/")]
+        _names = [name for name in names if src == "" or name.startswith(src + "/")]
         copy_executor = _CopyFromZipFileExecutor(zipfile, src, job, _names)
         yield src, copy_executor
 
@@ -1048,6 +1048,9 @@ def _tarfile_path_join(path, fn):
 
     """
     path = path.rstrip("/")
+    if not path:
+        # The archive root (a single job exported without sub-directory).
+        return fn
     return path + "/" + fn
 
 
